@@ -87,4 +87,10 @@ def plan(tier):
                               data='canary seed of every frame (32-bit): symbolic',
                               bounds='<= 3 simultaneously live frames, <= 6 create/complete operations',
                               outside='two threads on one reusable_storage_mtsafe (E2 half)'))
+    # two threads on one thread-safe reusable storage (E2, SC interleavings): exclusivity of the block
+    sto = [dict(name='mtsafe_16_16', nthreads=2, defines=['SZ1=16', 'SZ2=16']), dict(name='mtsafe_16_32', nthreads=2, defines=['SZ1=16', 'SZ2=32']),
+           dict(name='mtsafe_2rounds', nthreads=2, defines=['SZ1=16', 'SZ2=16', 'ROUNDS=2'])]
+    units.append(dict(engine='e2', name='mtsafe2', tu='C19mt.cpp', mode='sc', scenarios=sto, opts={'loop_bound': 6, 'rec_bound': 2}, timeout_s=600,
+                      space='two threads each alloc -> write canary -> check -> dealloc on one reusable_storage_mtsafe, once or twice, equal and different frame sizes',
+                      bounds='2 threads; all SC interleavings at instruction granularity', outside='address reuse by the heap (blocks get fresh addresses, so an ABA on a recycled address is not modelled); more than 2 threads'))
     return units
